@@ -925,7 +925,9 @@ def honesty_faults(part, c, ci, oname, order, le, vname, vm, exe, rng, tier):
 def run(tier):
     report = common.Report(PROP, tier, "exploration")
     report.rule = (
-        "per curve (32) x byte order (2) x build variant: 15 (+5 random, thorough) sign tuples mixing private keys "
+        "per curve (thorough: all 32; quick: a seeded rotating subset of 10 that always holds secp521r1, a cofactor-4, "
+        "a Brainpool, a 161/225-bit-order and three GOST curves) x byte order (2) x build variant: 15 (+5 random, "
+        "thorough) sign tuples mixing private keys "
         "{1,2,n-1,random}, hash values {0,1,n-1,n,n+1,2^(8*bytes)-1,random} and lengths {1,bytes-1,bytes,bytes+1,"
         "2*bytes,2*bytes+1,random}, nonces {0,1,n-1,n,max,random}; per signed tuple ~27 (thorough ~31) mutated "
         "verification tuples (bit flips of hash inside/beyond the truncation, of r and s, boundary r/s, n-s, swap, "
@@ -948,6 +950,9 @@ def run(tier):
     groups = [[v] for v in names]
     jobs = []
     only = curve_filter(report)
+    if not only and tier == "quick":
+        only = quick_subset(curves, PROP)
+        report.extra["quick_curve_subset"] = sorted(only)
     for ci in range(len(curves)):
         if only and curves[ci].name not in only:
             continue
@@ -980,6 +985,31 @@ def run(tier):
     if report.extra.get("sign_equal_reference", 0) == 0:
         report.inconclusive.append("no library signature equalled the reference: sign monitor saw nothing")
     return report.finish()
+
+
+def quick_subset(curves, prop):
+    """Quick tier: a seeded rotating subset of 10 of the 32 curves (thorough runs all).  Always inside:
+    secp521r1 (bit length not a multiple of 8), one cofactor-4 curve, one Brainpool curve, one curve whose
+    order is one bit longer than the field (secp160*/secp224k1), three GOST curves of which one has
+    generator x in {0, 1} and one is a 512-bit set; the rest below 384 bits."""
+    rng = Rng(prop, "quick-subset", common.seed())
+    by = {c.name: c for c in curves}
+    pick = ["secp521r1"]
+
+    def one(names):
+        names = [n for n in names if n in by and n not in pick]
+        if names:
+            pick.append(rng.choice(names))
+    one(["secp112r2", "secp128r2"])
+    one([n for n in by if n.startswith("brainpool") and by[n].bits < 384])
+    one(["secp160k1", "secp160r1", "secp160r2", "secp224k1"])
+    one([n for n in by if by[n].algo == ecdsa.ALGO_GOST and by[n].gx in (0, 1)])
+    one([n for n in by if by[n].algo == ecdsa.ALGO_GOST and by[n].bits == 256])
+    one([n for n in by if by[n].algo == ecdsa.ALGO_GOST and by[n].bits > 256])
+    rest = [n for n in by if n not in pick and by[n].bits < 384]
+    rng.shuffle(rest)
+    pick += rest[:10 - len(pick)]
+    return set(pick)
 
 
 def curve_filter(report):
